@@ -8,10 +8,17 @@ Correspondence: expression-tree case lines are interpreted by go/harness/iter wi
 drop-while, filter, map, append, flat-map) of every case itself and compares the implementation to it;
 the harness also verifies that no source slice was written to.
 
+Other element types and callback arguments (checks/iterx.py, go/harness/iter/{types,ref}.go): the harness builders are
+generic in the element type; every case is evaluated, in the same process and in an order that changes from case to
+case, at int, string and an interface type whose 0 is the nil interface value, and all results must agree (direct
+oracle only: the model is compared on the int part).  Every callback logs its arguments; they must be among the calls
+an eager evaluation with the list functions makes.
+
 case line:  <errAt> <expr>     (grammar: see lean/Golem/Driver/C14.lean)
 """
 import json
 import vlib
+from checks import iterx
 
 UNARY = ("TW", "DW", "FI", "MP")
 
@@ -104,6 +111,13 @@ def dropwhile(f, l):
 
 def denote(n, env, stats=None):
     """List semantics of an expression (the direct oracle). env: innermost variable first."""
+    out = denote1(n, env, stats)
+    if stats is not None and 0 in out:
+        stats["zero_seen"] = 1           # a 0 somewhere in the expression: the nil interface value at the interface typing
+    return out
+
+
+def denote1(n, env, stats):
     op, fn, terms, kids = n
     if op == "F":
         return [term_val(terms[0], env)]
@@ -116,7 +130,10 @@ def denote(n, env, stats=None):
     if op == "FI":
         return [x for x in denote(kids[0], env, stats) if pred(fn, env)(x)]
     if op == "MP":
-        return [mapping(fn, env)(x) for x in denote(kids[0], env, stats)]
+        out = [mapping(fn, env)(x) for x in denote(kids[0], env, stats)]
+        if stats is not None and 0 in out:
+            stats["map_zero"] = stats.get("map_zero", 0) + 1       # at the interface typing: a mapping returning nil
+        return out
     if op == "PL":
         return denote(kids[0], env, stats) + denote(kids[1], env, stats)
     if op == "JN":
@@ -140,6 +157,22 @@ def ops(n, acc):
     for k in n[3]:
         ops(k, acc)
     return acc
+
+
+def stack(n):
+    """(length of the longest chain of unary combinators applied DIRECTLY to each other, the same one twice in a row?)"""
+    best, same = 0, False
+
+    def go(m, run):
+        nonlocal best, same
+        run = run + 1 if m[0] in UNARY else 0
+        best = max(best, run)
+        for k in m[3]:
+            if m[0] in UNARY and k[0] == m[0]:
+                same = True
+            go(k, run)
+    go(n, 0)
+    return best, same
 
 
 def expected(errat, n):
@@ -201,6 +234,26 @@ def gen(rng, d, envd=0, maxlen=3, small=True):
     return (op, None, [], [gen(rng, d - 1, envd, maxlen, small), gen(rng, rng.randrange(1, d), envd + 1, maxlen, small)])
 
 
+def gen_stacked(rng):
+    """2-4 unary combinators applied DIRECTLY to each other's result (the same one repeated, with another function, more often
+    than not) over a source of 3-6 elements: what a combinator does when its argument IS another combinator's iterator
+    (two filters fused into one, a map of a map, ...) shows only on such stacks, and only when the source is long enough for
+    elements to be rejected after the first accepted one."""
+    def src():
+        return ("S", None, [rng.randrange(-2, 7) for _ in range(rng.randrange(3, 7))], [])
+    t, r = src(), rng.random()
+    if r < 0.2:
+        t = ("PL", None, [], [t, src()])
+    elif r < 0.35:
+        t = ("JN", None, [], [t, ("S", None, [(0, 0), (0, rng.choice([1, 2, -1]))], [])])
+    op = rng.choice(UNARY)
+    for _ in range(rng.randrange(2, 5)):
+        if rng.random() < 0.4:
+            op = rng.choice(UNARY)
+        t = (op, gen_map(rng, 0, False) if op == "MP" else gen_pred(rng, 0, False), [], [t])
+    return t
+
+
 def enumerate_small(maxd):
     """All expressions of depth <= maxd over a tiny alphabet (about 50 000 for maxd = 3)."""
     def leaves(envd):
@@ -244,12 +297,14 @@ def make_cases(ctx, boost):
         exhaustive = enumerate_small(3)
         trees += exhaustive                                  # exhaustive: depth <= 3, slices <= 3, tiny alphabet
         trees += [gen(rng, 3, small=True) for _ in range(6000 * boost)]
+        trees += [gen_stacked(rng) for _ in range(3000 * boost)]
         for d in (4, 5, 6, 7):
             trees += [deep(lambda: gen(rng, d, maxlen=4, small=False), d) for _ in range(15000 * boost)]
     else:
         trees += rng.sample(enumerate_small(3), 2100 * boost)        # sample of the exhaustive depth<=3 space
         trees += [gen(rng, 3, small=True) for _ in range(900 * boost)]   # depth<=3 / len<=3, richer function families
         trees += [deep(lambda: gen(rng, 5, maxlen=4, small=False), 5) for _ in range(700 * boost)]
+        trees += [gen_stacked(rng) for _ in range(300 * boost)]
     nexh = len(exhaustive) if ctx.thorough() else 0     # the exhaustive part is never thinned
     cases = []
     for idx, t in enumerate(trees):
@@ -315,14 +370,18 @@ def shrink(ctx, binp, case, fails):
 # ------------------------------------------------------------------ the check
 
 def core(line):
-    """impl line without the src= field."""
-    return line.rsplit("|src=", 1)[0]
+    """impl line without the src= / ty= / calls= / order= fields: the evaluation at element type int."""
+    return iterx.core(line)
 
 
 def run(ctx):
     ctx.cov["rule"] = ("case = (errAt, expression tree over From/FromSlice/TakeWhile/DropWhile/Filter/Map/Plus/Join with named predicate, "
                        "mapping and join-body families; join bodies are expressions over the join variable, so they return nil for some/all elements); "
-                       "non-trivial = tree depth >= 2 and non-empty result or a join call returning nil; distinct by case line")
+                       "non-trivial = tree depth >= 2 and non-empty result or a join call returning nil; distinct by case line. "
+                       "Every case is also evaluated by the harness at element types string and an interface type (0 = nil interface value), in the same process, "
+                       "in an order (int first / another type first) fixed by a hash of the case line: distribution.retyped_evaluations counts these evaluations "
+                       "(one drain + one ForEach each); they are judged by the direct oracle only (agreement with the int result), the model is compared on the int part. "
+                       "distribution.callback_argument_check: cases whose callback calls were all found among the calls of an eager list evaluation (ok)")
     ctx.assumptions += ["linear use: an expression is built once and each sub-iterator is handed to exactly one combinator (Go iterators are mutable and shared by reference)",
                         "user predicates/mappings/join functions are total and pure; join functions return a fresh Seq per call",
                         "Go panics are modelled as Except; fuel exhaustion is proved unreachable for fuel cost(e) (build_repr)",
@@ -355,7 +414,7 @@ def run(ctx):
 
     def fails(line, got):
         ea, t = int(line.split()[0]), parse(line.split()[1:])[0]
-        return core(got) != expected(ea, t) or not got.endswith("|src=ok")
+        return core(got) != expected(ea, t) or not iterx.extras_ok(got)
 
     reported = 0
     for c, got in zip(cases, impl):
@@ -369,11 +428,16 @@ def run(ctx):
         ctx.hist("errAt", "none" if ea < 0 else ("past-end" if ea >= len(l) else "inside"))
         if stats["join_calls"]:
             ctx.hist("join_nil_results", "all" if stats["join_nil"] == stats["join_calls"] else ("some" if stats["join_nil"] else "none"))
+        iterx.record(ctx, got)
+        ctx.hist("nil_interface_values", "returned by a mapping" if stats.get("map_zero") else ("elsewhere in the expression" if stats.get("zero_seen") else "none"))
+        chain, same = stack(t)
+        ctx.hist("direct_unary_stack", chain)
+        ctx.hist("same_unary_combinator_twice_in_a_row", same)
         for k, v in ops(t, {}).items():
             ctx.cov["distribution"].setdefault("combinator", {})
             ctx.cov["distribution"]["combinator"][k] = ctx.cov["distribution"]["combinator"].get(k, 0) + v
         want = expected(ea, t)
-        if core(got) != want or not got.endswith("|src=ok"):
+        if core(got) != want or not iterx.extras_ok(got):
             reported += 1
             if reported <= 3:
                 small = shrink(ctx, binp, c, fails) if not ctx.replay else c
@@ -382,10 +446,13 @@ def run(ctx):
                     sgot = g2[0] if g2 else got
                 except Exception:
                     small, sgot = c, got
+                if not fails(small, sgot):          # state-dependent and not reproduced by the rerun: keep the observed one
+                    small, sgot = c, got
                 sea, st = int(small.split()[0]), parse(small.split()[1:])[0]
-                what = ("a source slice was modified" if core(sgot) == expected(sea, st) else
-                        "draining / ForEach over the expression does not yield the list given by take-while/drop-while/filter/map/append/flat-map")
-                ctx.violations.append(vlib.Violation("impl", what, case=small, expected=expected(sea, st) + "|src=ok", got=sgot,
-                                                     key={"top": st[0], "original_case": c}))
+                what, cls = iterx.classify("C14", sgot, core(sgot) == expected(sea, st))
+                if what is None:
+                    what, cls = "draining / ForEach over the expression does not yield the list given by take-while/drop-while/filter/map/append/flat-map", "list"
+                ctx.violations.append(vlib.Violation("impl", what, case=small, expected=expected(sea, st) + iterx.TAIL_OK, got=sgot,
+                                                     key={"top": st[0], "class": cls, "original_case": c}))
         elif d >= 3 and len(l) > 0:
             ctx.sample({"case": c, "impl": got, "model_and_list_semantics": want})
